@@ -1,6 +1,6 @@
 (** C01 — Every submitted task runs exactly once. (what is established so far) *)
 From OCV Require Import Cases.Pool.
-From OCV Require Import Sched.PoolWf Sched.PoolRun Sched.PoolProofs Sched.PoolInv Sched.PoolExample.
+From OCV Require Import Sched.PoolWf Sched.PoolRun Sched.PoolProofs Sched.PoolInv Sched.PoolTerm Sched.PoolExample.
 Open Scope Z_scope.
 
 Definition c01_witness : pcase :=
@@ -16,21 +16,25 @@ Theorem C01_refuted_stolen_worker_wedges_pool :
 Proof. exists c01_witness. vm_compute. repeat split; auto. eexists; reflexivity. Qed.
 
 (** * One pool: every well-formed history (any length, any task bodies, cancels, cleans, waits, stops,
-    clock steps), the oracle applied to the model's own run. [wf_pool1]: min = 0, keep-alive = 0,
-    max >= 1, operations on pool 0, task ids submitted, acceptable bodies, clock monotone.
-    Partial: needs [nodiv] (no pass or stop of the model's run exhausts its fuel); what is missing is
-    the termination argument for the fuel of the worker loop / do_schedule / stop loop. *)
-Theorem C01_single_pool_partial : forall clock cfg ops, wf_pool1 clock cfg ops = true ->
-  nodiv (pw0 clock [cfg]) ops = true ->
+    clock steps), the oracle applied to the model's own run. [wf_pool1t] = [wf_pool1] (min = 0,
+    keep-alive = 0, max >= 1, operations on pool 0, task ids submitted, acceptable bodies, clock
+    monotone) and every stop timeout <= u64::MAX. *)
+Theorem C01_single_pool : forall clock cfg ops, wf_pool1t clock cfg ops = true ->
   po_c01 (fst (self_flags clock [cfg] ops)) = true.
-Proof. exact c01_model1_partial. Qed.
+Proof. exact c01_model1. Qed.
 
-(** a stored result is the task's own outcome, or the cancellation / stop error *)
-Theorem C01_result_is_own_partial : forall clock cfg ops n, wf_pool1 clock cfg ops = true -> nodiv (pw0 clock [cfg]) ops = true ->
+(** no pass and no stop of such a history diverges (the model's fuel is never exhausted: worker
+    loop, scheduling pass and stop loop all terminate) *)
+Theorem C01_no_call_diverges : forall clock cfg ops, wf_pool1t clock cfg ops = true ->
+  nodiv (pw0 clock [cfg]) ops = true.
+Proof. exact nodiv_model1. Qed.
+
+(** a stored result is the task's own outcome, or the cancellation / stop error, after every prefix *)
+Theorem C01_result_is_own : forall clock cfg ops n, wf_pool1t clock cfg ops = true ->
   let x := pfinal (pw0 clock [cfg]) (firstn n ops) in
   forall i r, In (i, r) (p_results (get_pool x 0)) ->
     r = body_outcome (nth i (pw_tbody x) []) \/ r = TErr TMCancelled \/ (r = TErr TMStopped /\ p_state (get_pool x 0) = PStopped).
-Proof. exact result_own1_partial. Qed.
+Proof. exact result_own1. Qed.
 
 (** with one pool neither of the two-pool defects can arise, for any history whatsoever *)
 Theorem C01_single_pool_no_defect : forall clock cfg ops,
@@ -39,10 +43,11 @@ Theorem C01_single_pool_no_defect : forall clock cfg ops,
 Proof. exact single_pool_no_defect. Qed.
 
 (** the premises are satisfiable: a 33-operation history with every kind of operation *)
-Example C01_nonvacuous : wf_pool1 0 ex_cfg ex_ops = true /\ nodiv (pw0 0 [ex_cfg]) ex_ops = true.
-Proof. split; [exact ex_wf | exact (proj1 ex_extra)]. Qed.
+Example C01_nonvacuous : wf_pool1t 0 ex_cfg ex_ops = true.
+Proof. vm_compute. reflexivity. Qed.
 
 Print Assumptions C01_refuted_stolen_worker_wedges_pool.
-Print Assumptions C01_single_pool_partial.
-Print Assumptions C01_result_is_own_partial.
+Print Assumptions C01_single_pool.
+Print Assumptions C01_no_call_diverges.
+Print Assumptions C01_result_is_own.
 Print Assumptions C01_single_pool_no_defect.
